@@ -172,20 +172,23 @@ pub fn run(outdir: &str, seed: u64, thorough: bool) -> serde_json::Value {
     // table references: a CTE shadows the bare name it defines and nothing else; every other reference
     // (bare or schema-qualified) goes to the table map under the exact / unique-suffix rule
     let nt = if thorough { 6000 } else { 400 };
-    let all_tabs = [("sch", "t1"), ("sch", "t2"), ("oth", "t2"), ("oth", "t3")];
+    // (the last one is registered under a one-component path: a CTE of that name has exactly its path)
+    let all_tabs = [("sch", "t1"), ("sch", "t2"), ("oth", "t2"), ("oth", "t3"), ("", "t4")];
     for ti in 0..nt {
         let mut r = rng.fork();
         let mut chosen: Vec<(&str, &str)> = all_tabs.iter().filter(|_| r.chance(2, 3)).cloned().collect();
-        if chosen.is_empty() { chosen.push(all_tabs[r.below(4) as usize]); }
+        if chosen.is_empty() { chosen.push(all_tabs[r.below(5) as usize]); }
         let rels: Hierarchy<Arc<Relation>> = chosen.iter().map(|(sc, t)| {
             let marker = format!("m_{}_{}", sc, t);
             let schema: Schema = vec![("k".to_string(), DataType::integer_interval(0, 10)), (marker, DataType::integer_interval(0, 10))].into_iter().collect();
-            (vec![sc.to_string(), t.to_string()], Arc::new(Relation::table().name(format!("{}_{}", sc, t)).schema(schema).size(10).build()))
+            (if sc.is_empty() { vec![t.to_string()] } else { vec![sc.to_string(), t.to_string()] }, Arc::new(Relation::table().name(format!("{}_{}", sc, t)).schema(schema).size(10).build()))
         }).collect();
-        let tmap: BTreeMap<Vec<String>, u64> = chosen.iter().enumerate().map(|(i, (sc, t))| (vec![sc.to_string(), t.to_string()], i as u64)).collect();
-        let cte = *r.pick(&["t1", "t2", "t3", "c0"]);
-        let base = { let (sc, t) = r.pick(&chosen); format!("{}.{}", sc, t) };
-        let reference = *r.pick(&["t1", "t2", "t3", "c0", "sch.t1", "sch.t2", "oth.t2", "oth.t3", "sch.t3", "oth.t1"]);
+        let tmap: BTreeMap<Vec<String>, u64> = chosen.iter().enumerate().map(|(i, (sc, t))| (if sc.is_empty() { vec![t.to_string()] } else { vec![sc.to_string(), t.to_string()] }, i as u64)).collect();
+        let cte = *r.pick(&["t1", "t2", "t3", "c0", "t4", "t4"]);
+        let base = { let (sc, t) = r.pick(&chosen); if sc.is_empty() { t.to_string() } else { format!("{}.{}", sc, t) } };
+        // (a CTE whose body reads a table of its own name is bound to itself and aborts: left to C18)
+        if base == cte { continue; }
+        let reference = *r.pick(&["t1", "t2", "t3", "c0", "sch.t1", "sch.t2", "oth.t2", "oth.t3", "sch.t3", "oth.t1", "t4", "t4", "sch.t4"]);
         let shape = r.below(4);
         let with = format!("WITH {} AS (SELECT k AS k, k AS m_cte FROM {})", cte, base);
         let query = match shape {
@@ -201,7 +204,7 @@ pub fn run(outdir: &str, seed: u64, thorough: bool) -> serde_json::Value {
         if reference == cte || shape == 2 { lmap.insert(vec![cte.to_string()], 99); }
         let want: Option<String> = {
             let p: Vec<String> = reference.split('.').map(|x| x.to_string()).collect();
-            spec_get(&lmap, &p).map(|(k, _)| if k.len() == 1 { "m_cte".to_string() } else { format!("m_{}_{}", k[0], k[1]) })
+            spec_get(&lmap, &p).map(|(k, v)| if v == 99 { "m_cte".to_string() } else if k.len() == 1 { format!("m__{}", k[0]) } else { format!("m_{}_{}", k[0], k[1]) })
         };
         let res = catch_unwind(AssertUnwindSafe(|| {
             let q = parse(&query).map_err(|e| e.to_string())?;
@@ -209,7 +212,7 @@ pub fn run(outdir: &str, seed: u64, thorough: bool) -> serde_json::Value {
         }));
         st.evaluations += 1;
         st.distinct.insert(hash_str(&format!("{:?}{}", chosen, query)));
-        let tables: Vec<String> = chosen.iter().map(|(a, b)| format!("{}.{}", a, b)).collect();
+        let tables: Vec<String> = chosen.iter().map(|(a, b)| if a.is_empty() { b.to_string() } else { format!("{}.{}", a, b) }).collect();
         let markers = |names: &Vec<String>| -> Vec<String> { names.iter().filter(|n| n.starts_with("m_")).cloned().collect() };
         match (&res, &want) {
             (Ok(Ok(names)), Some(m)) => {
